@@ -405,6 +405,8 @@ def into_iter(m, ref, args, t, sp):
         return v
     if isinstance(v, VStruct) and v.path.startswith("core::ops::range::Range"):
         return v
+    if isinstance(v, VStruct) and m.db.find_impl_method("core::iter::traits::iterator::Iterator", v.path, "next"):
+        return v  # `impl<I: Iterator> IntoIterator for I` is the identity
     if isinstance(v, VRef):
         tgt = m.read_loc(v.cell, v.path)
         if isinstance(tgt, VArray):
@@ -556,7 +558,12 @@ def iter_skip(m, ref, args, t, sp):
 def iter_of(m, v, sp):
     if isinstance(v, VModel):
         return v
-    return into_iter(m, None, [v], None, sp)
+    r = into_iter(m, None, [v], None, sp)
+    if isinstance(r, VStruct):
+        # a by-value iterator struct (a range, or a crate-local `impl Iterator`) used as the inner
+        # iterator of an adaptor: keep it in a cell and advance it through its own `next`
+        return VModel("user_iter", cell=Cell(r))
+    return r
 
 
 def fresh_item(m, it, t):
@@ -618,8 +625,12 @@ def model_next(m, it, sp, item_ty=None):
         if isinstance(inner, VStruct):
             raise Unsupported("rev of range")
         raise Unsupported("rev of " + inner.kind)
+    if k == "user_iter":
+        c = st["cell"]
+        o = iter_next(m, None, [VRef(c, (), True)], None, sp)
+        return o.fields[0] if o.variant == 1 else None
     if k == "copied":
-        x = model_next(m, st["inner"], sp, None)
+        x = model_next(m, st["inner"], sp, {"k": "ref", "mut": False, "to": item_ty} if item_ty else None)
         if x is None:
             return None
         return deep(load(m, x))
@@ -1443,3 +1454,148 @@ BY_NAME["core::cmp::Ordering::reverse"] = ordering_reverse
 BY_NAME["core::cmp::Ordering::then"] = ordering_then
 BY_NAME["core::f64::<impl f64>::is_finite"] = float_is_finite2
 BY_TRAIT[("num_traits::float::Float", "is_finite")] = float_is_finite2
+
+
+# ---- the `?` operator: Try::branch / FromResidual::from_residual on Option and Result ----
+CONTROL_FLOW = "core::ops::control_flow::ControlFlow"
+
+
+def try_branch(m, ref, args, t, sp):
+    v = args[0]
+    if isinstance(v, VStruct) and v.path == OPTION:
+        if v.variant == 1:
+            return VStruct(CONTROL_FLOW, 0, [v.fields[0]], ["0"], "Continue")
+        return VStruct(CONTROL_FLOW, 1, [none()], ["0"], "Break")
+    if isinstance(v, VStruct) and v.path == RESULT:
+        if v.variant == 0:
+            return VStruct(CONTROL_FLOW, 0, [v.fields[0]], ["0"], "Continue")
+        return VStruct(CONTROL_FLOW, 1, [err(v.fields[0])], ["0"], "Break")
+    m.mark_inconclusive("`?` on an unmodelled value", sp)
+    return VOpaque("?", m.new_name("branch"))
+
+
+def try_from_residual(m, ref, args, t, sp):
+    v = args[0]
+    if isinstance(v, VStruct) and v.path == OPTION:
+        return none()
+    if isinstance(v, VStruct) and v.path == RESULT and v.variant == 1:
+        e = v.fields[0]
+        # `From<E> for E` is the identity; a converting `From` impl of the crate is called
+        targs = [a for a in (ref.get("resolved_targs") or ref.get("targs") or []) if a.get("k") != "region"]
+        if isinstance(e, VStruct):
+            for a in targs:
+                if a.get("k") == "adt" and a.get("path") == RESULT:
+                    ets = [x for x in a["args"] if x.get("k") != "region"]
+                    if len(ets) == 2 and ets[1].get("k") == "adt" and ets[1].get("path") != e.path:
+                        p = m.db.find_impl_method("core::convert::From", ets[1]["path"], "from")
+                        if p:
+                            return err(m.call_local(m.db.fns[p], [e], sp))
+                        raise Unsupported("from_residual with a foreign error conversion")
+        return err(e)
+    raise Unsupported("from_residual of %r" % (v,))
+
+
+BY_TRAIT[("core::ops::try_trait::Try", "branch")] = try_branch
+BY_TRAIT[("core::ops::try_trait::FromResidual", "from_residual")] = try_from_residual
+
+
+def array_from_fn(m, ref, args, t, sp):
+    targs = ref.get("resolved_targs") or ref.get("targs") or []
+    n = None
+    for a in targs:
+        if a.get("k") == "const":
+            n = m.const_val(a["v"])
+    if not isinstance(n, int):
+        raise Unsupported("array::from_fn with a symbolic length")
+    return VArray([m.call_closure(args[0], [i], sp) for i in range(n)])
+
+
+BY_NAME["core::array::from_fn"] = array_from_fn
+
+
+def option_ok_or(m, ref, args, t, sp):
+    v = args[0]
+    if isinstance(v, VStruct) and v.path == OPTION:
+        return ok(v.fields[0]) if v.variant == 1 else err(args[1])
+    raise Unsupported("ok_or of unmodelled option")
+
+
+def option_is(some_):
+    def h(m, ref, args, t, sp):
+        v = load(m, args[0])
+        if isinstance(v, VStruct) and v.path == OPTION:
+            return (v.variant == 1) == some_
+        return ("bopq", m.new_name("is_some"))
+    return h
+
+
+def result_is(ok_):
+    def h(m, ref, args, t, sp):
+        v = load(m, args[0])
+        if isinstance(v, VStruct) and v.path == RESULT:
+            return (v.variant == 0) == ok_
+        return ("bopq", m.new_name("is_ok"))
+    return h
+
+
+def result_ok(m, ref, args, t, sp):
+    v = args[0]
+    if isinstance(v, VStruct) and v.path == RESULT:
+        return some(v.fields[0]) if v.variant == 0 else none()
+    raise Unsupported("ok() of unmodelled result")
+
+
+def option_unwrap_or(m, ref, args, t, sp):
+    v = args[0]
+    if isinstance(v, VStruct) and v.path == OPTION:
+        return v.fields[0] if v.variant == 1 else args[1]
+    raise Unsupported("unwrap_or of unmodelled option")
+
+
+def result_map_err(m, ref, args, t, sp):
+    v = args[0]
+    if isinstance(v, VStruct) and v.path == RESULT:
+        return v if v.variant == 0 else err(m.call_closure(args[1], [v.fields[0]], sp))
+    raise Unsupported("map_err of unmodelled result")
+
+
+def result_map(m, ref, args, t, sp):
+    v = args[0]
+    if isinstance(v, VStruct) and v.path == RESULT:
+        return ok(m.call_closure(args[1], [v.fields[0]], sp)) if v.variant == 0 else v
+    raise Unsupported("map of unmodelled result")
+
+
+for _k, _h in (("core::option::Option::<T>::ok_or", option_ok_or), ("core::option::Option::<T>::is_some", option_is(True)),
+               ("core::option::Option::<T>::is_none", option_is(False)), ("core::result::Result::<T, E>::is_ok", result_is(True)),
+               ("core::result::Result::<T, E>::is_err", result_is(False)), ("core::result::Result::<T, E>::ok", result_ok),
+               ("core::option::Option::<T>::unwrap_or", option_unwrap_or), ("core::result::Result::<T, E>::map_err", result_map_err),
+               ("core::result::Result::<T, E>::map", result_map)):
+    BY_NAME.setdefault(_k, _h)
+
+
+def convert_from(m, ref, args, t, sp):
+    """`From::from` / `Into::into` between primitive numbers: lossless widening (the only impls core
+    provides), so integers keep their value and an integer-to-float conversion is exact"""
+    v = args[0]
+    targs = [a for a in (ref.get("resolved_targs") or ref.get("targs") or []) if a.get("k") == "prim"]
+    names = [a.get("s") for a in targs]
+    if is_int(v) and names and all(n_ in INT_NAMES or n_ in ("f64", "f32") for n_ in names):
+        if any(n_ in ("f64", "f32") for n_ in names[:1]) and ref.get("name") == "from":
+            return F.i2f(v)
+        return v
+    if is_float(v) and names and all(n_ in ("f64", "f32") for n_ in names):
+        return v
+    p = None
+    if isinstance(v, VStruct):
+        for a in (ref.get("resolved_targs") or ref.get("targs") or []):
+            if a.get("k") == "adt":
+                p = m.db.find_impl_method("core::convert::From", a["path"], "from")
+                if p:
+                    return m.call_local(m.db.fns[p], [v], sp)
+    return m.unknown_call(ref["fn"], args, t, sp, ref)
+
+
+INT_NAMES = ("u8", "u16", "u32", "u64", "u128", "usize", "i8", "i16", "i32", "i64", "i128", "isize")
+BY_TRAIT[("core::convert::From", "from")] = convert_from
+BY_TRAIT[("core::convert::Into", "into")] = convert_from
